@@ -326,7 +326,26 @@ def execute(rec, clean, inst, root, seqname):
         except Exception as e:  # noqa: BLE001
             raised = type(e).__name__
         rec.outcome(f"des:{'raised' if raised else 'ok'}")
-        # results of deserialization are C04's business; here only the aftermath counts
+        # results of deserialization are C04's business; here only the aftermath counts - except for the one option whose
+        # effect IS the result: a dialect given to the call must reach every nested object, tagged or not
+        if opt == "dialect" and fault is None:
+            for variant in ("as-written", "code-points-untagged"):
+                rec.count("evaluations")
+                pl = copy.deepcopy(root.as_dict(mashumaro_dialect=IntShift))
+                if variant == "code-points-untagged":
+                    # a nested object whose declared type is exact needs no type tag (hand-edited or foreign documents)
+                    for _, m in mappings(pl):
+                        if m.get(TYPE_KEY) == "CodePoint":
+                            del m[TYPE_KEY]
+                try:
+                    back = call(SN, DES[fmt], encode(fmt, pl), opt)
+                    if not (back == root) or [i.node._Hidden__x for i in back.dfs()] != [i.node._Hidden__x for i in root.dfs()]:
+                        rec.violation(f"C16|per-call|dialect|deserialize|{fmt}", dict(case, variant=variant),
+                                      f"{name} ({variant}): the dialect did not take effect on every nested object (result != original)")
+                    del back
+                except Exception as e:  # noqa: BLE001
+                    rec.violation(f"C16|per-call|dialect|deserialize|{fmt}", dict(case, variant=variant),
+                                  f"{name} ({variant}): raised {type(e).__name__}: {str(e)[:150]}")
 
 
 def probe(rec, clean, root, seqname, after):
